@@ -48,35 +48,58 @@ func c10Mentions(n ast.Node, name string) bool {
 // that mention ident; an `if init; cond {}` contributes its init statement.
 func c10StmtSkeleton(fset *token.FileSet, fn *ast.FuncDecl, ident string) []string {
 	var out []string
-	var walk func(list []ast.Stmt)
-	walk = func(list []ast.Stmt) {
+	// guard: the conditions / loops a statement is nested in (a statement that became conditional,
+	// or moved into a switch, is a different skeleton)
+	var walk func(list []ast.Stmt, guard string)
+	walk = func(list []ast.Stmt, guard string) {
 		for _, s := range list {
 			switch st := s.(type) {
 			case *ast.IfStmt:
 				if st.Init != nil && c10Mentions(st.Init, ident) {
-					out = append(out, c10NodeStr(fset, st.Init))
+					out = append(out, guard+c10NodeStr(fset, st.Init))
 				}
-				walk(st.Body.List)
+				cond := c10NodeStr(fset, st.Cond)
+				walk(st.Body.List, guard+"[if "+cond+"] ")
 				if eb, ok := st.Else.(*ast.BlockStmt); ok {
-					walk(eb.List)
+					walk(eb.List, guard+"[else of "+cond+"] ")
 				} else if ei, ok := st.Else.(*ast.IfStmt); ok {
-					walk([]ast.Stmt{ei})
+					walk([]ast.Stmt{ei}, guard+"[else of "+cond+"] ")
 				}
 			case *ast.BlockStmt:
-				walk(st.List)
+				walk(st.List, guard)
 			case *ast.ForStmt:
-				walk(st.Body.List)
+				walk(st.Body.List, guard+"[loop] ")
 			case *ast.RangeStmt:
-				walk(st.Body.List)
+				walk(st.Body.List, guard+"[loop] ")
+			case *ast.SwitchStmt:
+				for _, c := range st.Body.List {
+					if cc, ok := c.(*ast.CaseClause); ok {
+						walk(cc.Body, guard+"[case] ")
+					}
+				}
+			case *ast.TypeSwitchStmt:
+				for _, c := range st.Body.List {
+					if cc, ok := c.(*ast.CaseClause); ok {
+						walk(cc.Body, guard+"[case] ")
+					}
+				}
+			case *ast.SelectStmt:
+				for _, c := range st.Body.List {
+					if cc, ok := c.(*ast.CommClause); ok {
+						walk(cc.Body, guard+"[case] ")
+					}
+				}
+			case *ast.LabeledStmt:
+				walk([]ast.Stmt{st.Stmt}, guard)
 			case *ast.AssignStmt, *ast.ExprStmt, *ast.ReturnStmt, *ast.DeclStmt, *ast.DeferStmt, *ast.GoStmt, *ast.IncDecStmt:
 				if c10Mentions(s, ident) {
-					out = append(out, c10NodeStr(fset, s))
+					out = append(out, guard+c10NodeStr(fset, s))
 				}
 			}
 		}
 	}
 	if fn.Body != nil {
-		walk(fn.Body.List)
+		walk(fn.Body.List, "")
 	}
 	return out
 }
